@@ -490,11 +490,19 @@ impl Check for C12 {
         for (i, op) in case.ops.iter().enumerate() {
             let step = i + 1;
             let model_before = model.clone();
-            let mres = model.apply(op);
+            let mut mres = model.apply(op);
             let rres = match guarded(|| apply_real(&mut ds, op)) {
                 Ok(r) => r,
                 Err(p) => return viol("I7-no-panic", step, format!("{op:?} panicked: {p}")),
             };
+            // `push` on a frozen builder is left unconstrained (documented as an unconditional
+            // append, while the property says a frozen builder refuses mutating operations): either
+            // outcome is accepted, a refusal must change nothing (I2 below) and the model follows it
+            if matches!(op, Op::Push(_)) && model_before.frozen && rres.is_err() {
+                model = model_before.clone();
+                mres = Err(());
+                stats.hit("probe.push_refused_by_frozen_builder");
+            }
             let after = match guarded(|| snapshot_real(&ds, &case.ops[..step])) {
                 Ok(s) => s,
                 Err(p) => return viol("I7-no-panic", step, format!("query after {op:?} panicked: {p}")),
